@@ -15,6 +15,9 @@ type Clause struct {
 	Src  string
 	E    Expr
 	Line string // file:line
+	// Trusted: a postcondition of a verified function that is used at call
+	// sites but not proved from the body (listed among the assumptions)
+	Trusted bool
 }
 
 type LoopContract struct {
@@ -98,7 +101,7 @@ func newDB() *ContractDB {
 	return &ContractDB{funcs: map[string]*FuncContract{}, specs: map[string]*SpecFunc{}}
 }
 
-var clauseRe = regexp.MustCompile(`^(requires|ensures|invariant|continue|site|lemma|axiom)(\[([A-Za-z0-9_\-.]+)\])?\s*(.*)$`)
+var clauseRe = regexp.MustCompile(`^(requires|ensures|trusted|invariant|continue|site|lemma|axiom)(\[([A-Za-z0-9_\-.]+)\])?\s*(.*)$`)
 
 func (db *ContractDB) loadDir(dir, pkgPath string) error {
 	files, _ := filepath.Glob(filepath.Join(dir, "zz_verif_contracts*.go"))
@@ -502,12 +505,12 @@ func (db *ContractDB) loadFile(file, pkgPath string) (err error) {
 				}
 				name := m[3]
 				switch m[1] {
-				case "requires", "ensures":
+				case "requires", "ensures", "trusted":
 					e, err := parseExpr(m[4])
 					if err != nil {
 						return fail("%v", err)
 					}
-					cl := Clause{Name: name, Src: m[4], E: e, Line: where}
+					cl := Clause{Name: name, Src: m[4], E: e, Line: where, Trusted: m[1] == "trusted"}
 					if m[1] == "requires" {
 						if cl.Name == "" {
 							cl.Name = fmt.Sprintf("pre%d", len(cur.Requires))
